@@ -47,8 +47,8 @@ theorem stationary_iff (P : QMat n) (w : QVec n) :
 
 /-! ## what an `ok` result of each routine certifies -/
 
-theorem mfpt_ok {A : AMat Int n} {o : MfptOut n} (h : mfpt A = .ok o) :
-    (∀ i, rowSum (toQ A) i ≠ 0) ∧ o.P = transition A ∧ stationary o.P o.w = true ∧
+theorem mfpt_ok {A : QMat n} {o : MfptOut n} (h : mfpt A = .ok o) :
+    (∀ i, rowSum A i ≠ 0) ∧ o.P = transition A ∧ stationary o.P o.w = true ∧
     (∀ j : Fin n, o.w[j] ≠ 0) ∧ isInvOf (fundArg o.P o.w) o.Z = true ∧
     o.M = AMat.ofFn fun i j => (o.Z.get j j - o.Z.get i j) / o.w[j] := by
   unfold mfpt at h
@@ -67,7 +67,7 @@ theorem mfpt_ok {A : AMat Int n} {o : MfptOut n} (h : mfpt A = .ok o) :
         Bool.not_eq_eq_eq_not, Bool.not_true, Bool.not_eq_false] at h1 h2 h3 h4
       exact ⟨h1, rfl, h2, h3, h4, rfl⟩
 
-theorem diffEff_ok {A : AMat Int n} {o : DiffOut n} (h : diffEff A = .ok o) :
+theorem diffEff_ok {A : QMat n} {o : DiffOut n} (h : diffEff A = .ok o) :
     (∃ m, mfpt A = .ok m ∧ o.M = m.M) ∧ (∀ i j, i ≠ j → o.M.get i j ≠ 0) ∧ 2 ≤ n ∧
     o.E = (AMat.ofFn fun i j => if i = j then 0 else 1 / o.M.get i j) ∧
     o.g = fsum (fun i => fsum fun j => o.E.get i j) / ((n : ℚ) * n - n) := by
@@ -80,7 +80,7 @@ theorem diffEff_ok {A : AMat Int n} {o : DiffOut n} (h : diffEff A = .ok o) :
     simp only [anyFin_iff, not_exists, Bool.and_eq_true, bne_iff_ne, ne_eq, beq_iff_eq, not_and] at h1
     exact ⟨⟨m, hm, rfl⟩, fun i j hij => h1 i j hij, by omega, rfl, rfl⟩
 
-theorem pagerank_ok {A : AMat Int n} {d : ℚ} {f : Option (Vector Int n)} {o : PrOut n}
+theorem pagerank_ok {A : QMat n} {d : ℚ} {f : Option (Vector Int n)} {o : PrOut n}
     (h : pagerank A d f = .ok o) :
     prior f = .ok o.f ∧
     solves (prMat A d) o.r0 (Vector.ofFn fun i => (1 - d) * o.f[i]) = true ∧
@@ -177,6 +177,10 @@ theorem expDiag_spec (A : AMat Int n) (T : ℕ) (i : Fin n) :
 
 theorem toQ_get (A : AMat Int n) (i j : Fin n) : (toQ A).get i j = (A.get i j : ℚ) := by
   simp [toQ, AMat.map]
+
+theorem scaleQ_get (A : AMat Int n) (den : ℕ) (i j : Fin n) :
+    (scaleQ A den).get i j = (A.get i j : ℚ) / (den : ℚ) := by
+  simp [scaleQ]
 
 theorem toMat_binarize (A : AMat Int n) (i j : Fin n) :
     toMat (binarize A) i j = if (A.get i j != 0) then 1 else 0 := by
